@@ -710,11 +710,11 @@ wait:
 			// the function that dominates the visible frames
 			counts := map[string]int{}
 			for _, line := range strings.Split(g, "\n") {
-				if strings.HasPrefix(line, "github.com/sourcenetwork/defradb/") && !strings.Contains(line, "verifharness") {
+				if strings.HasPrefix(line, "github.com/sourcenetwork/") && !strings.Contains(line, "verifharness") {
 					if i := strings.LastIndex(line, "("); i > 0 {
 						line = line[:i]
 					}
-					counts[strings.TrimPrefix(line, "github.com/sourcenetwork/defradb/")]++
+					counts[strings.TrimPrefix(strings.TrimPrefix(line, "github.com/sourcenetwork/defradb/"), "github.com/sourcenetwork/")]++
 				}
 			}
 			best := 0
@@ -841,7 +841,8 @@ func TestC08Child(t *testing.T) {
 	if !ok {
 		t.Skip("child-process entry point")
 	}
-	hangAfter = time.Duration(hx.EnvInt("C08_CHILD_HANG_S", 8)) * time.Second
+	hangAfter = time.Duration(hx.EnvInt("C08_CHILD_HANG_S", 4)) * time.Second
+	debug.SetMaxStack(512 << 20)
 	fx := newFixture()
 	res, f := execGuarded(fx, q)
 	out := childOut{Class: classify(res)}
@@ -896,10 +897,16 @@ func runInChild(q string) (string, *hx.Failure) {
 		kind := strings.SplitN(text[i+len("fatal error: "):], "\n", 2)[0]
 		site := "unknown"
 		if j := strings.Index(text[i:], "[running]:"); j >= 0 {
-			if m := crashFrameRe.FindStringSubmatch(text[i+j:]); m != nil {
-				site = m[1]
+			block := strings.SplitN(text[i+j:], "\n\n", 2)[0]
+			counts, best := map[string]int{}, 0
+			for _, m := range crashFrameRe.FindAllStringSubmatch(block, -1) {
+				fn := m[1]
 				for _, pre := range []string{"github.com/sourcenetwork/defradb/", "github.com/sourcenetwork/"} {
-					site = strings.TrimPrefix(site, pre)
+					fn = strings.TrimPrefix(fn, pre)
+				}
+				counts[fn]++
+				if counts[fn] > best || (counts[fn] == best && fn < site) {
+					best, site = counts[fn], fn
 				}
 			}
 		}
